@@ -351,3 +351,256 @@ Proof.
         -- cbn [app]. injection Er3 as <- <-. rewrite opt_sign_cons, Es. reflexivity.
     + exfalso. destruct (hex_of u); [discriminate|]. cbn [andb] in Hrf. discriminate.
 Qed.
+
+(* ------------------------------------------------------------------ *)
+(* the scanner, restated over the lexing function                      *)
+(* ------------------------------------------------------------------ *)
+
+Lemma span_ext p q s : (forall c, p c = q c) -> span p s = span q s.
+Proof. intro H. induction s as [|c t IH]; cbn [span]; [reflexivity|]. rewrite <- H, IH. reflexivity. Qed.
+
+Lemma lex_mant_ext p q u : (forall c, p c = q c) -> lex_mant p u = lex_mant q u.
+Proof.
+  intro H. unfold lex_mant. rewrite (span_ext p q u H). destruct (span q u) as [d1 r1].
+  destruct (opt_dot r1) as [dot r2]. rewrite (span_ext p q r2 H). reflexivity.
+Qed.
+
+Definition scan_dec (start : Z) (sg u : bytes) : pscan :=
+  let '(d1, dot, d2, r3) := lex_mant is_digit u in
+  if is_nil d1 && is_nil d2 then PSZero
+  else PSNum start (sg ++ d1 ++ dot ++ d2 ++ scan_exp 101 69 r3) false.
+
+Definition scan_hex' (start : Z) (sg pre r : bytes) : pscan :=
+  let '(d1, dot, d2, r3) := lex_mant is_hex_digit r in
+  if is_nil d1 && is_nil d2 then PSZero
+  else PSNum start (sg ++ pre ++ d1 ++ dot ++ d2 ++ scan_exp 112 80 r3) (is_nil (scan_exp 112 80 r3)).
+
+Lemma scan_hex_eq start sg pre r : scan_hex start sg pre r = scan_hex' start sg pre r.
+Proof.
+  unfold scan_hex, scan_hex', lex_mant.
+  destruct (span is_hex_digit r) as [d1 r1]. destruct (opt_dot r1) as [dot r2].
+  destruct (span is_hex_digit r2) as [d2 r3]. reflexivity.
+Qed.
+
+Definition scan_t (start : Z) (t : bytes) : pscan :=
+  let '(sg, u) := opt_sign t in
+  if (3 <=? zlen u) && has_nan_prefix u then PSNaN
+  else if (3 <=? zlen u) && has_inf_prefix u then
+    match t with c :: _ => PSInf (c =? 45) | [] => PSPanic end
+  else if hex_of u then scan_hex' start sg (ztake 2 u) (zdrop 2 u)
+  else scan_dec start sg u.
+
+Lemma scan_prefix_eq s :
+  scan_prefix s = scan_t (zlen (fst (span ascii_space s))) (snd (span ascii_space s)).
+Proof.
+  unfold scan_prefix, scan_t, scan_dec, hex_of, lex_mant.
+  destruct (span ascii_space s) as [ws t]. cbn [fst snd].
+  destruct (opt_sign t) as [sg u].
+  destruct ((3 <=? zlen u) && has_nan_prefix u); [reflexivity|].
+  destruct ((3 <=? zlen u) && has_inf_prefix u); [reflexivity|].
+  destruct ((2 <? zlen u) && has_hex_prefix u); [apply scan_hex_eq|].
+  destruct (span is_digit u) as [d1 r1]. destruct (opt_dot r1) as [dot r2].
+  destruct (span is_digit r2) as [d2 r3]. reflexivity.
+Qed.
+
+(* ------------------------------------------------------------------ *)
+(* the exponent part                                                   *)
+(* ------------------------------------------------------------------ *)
+
+Definition sign_str (sg : bytes) : Prop := sg = [] \/ sg = [43] \/ sg = [45].
+
+(* c [sign] digits+ *)
+Definition exponent (lo up : Z) (x : bytes) : Prop :=
+  exists c es ed, x = c :: es ++ ed /\ (c = lo \/ c = up) /\ sign_str es /\ ed <> [] /\ forallb is_digit ed = true.
+
+Lemma digit_not_sign c : is_digit c = true -> is_sign c = false.
+Proof. unfold is_digit, is_sign. intro H. lia. Qed.
+
+Lemma opt_sign_shape es ed tail :
+  sign_str es -> ed <> [] -> forallb is_digit ed = true -> opt_sign (es ++ ed ++ tail) = (es, ed ++ tail).
+Proof.
+  intros Hes Hne Hd. destruct ed as [|d ed']; [congruence|].
+  cbn [forallb] in Hd. apply andb_true_iff in Hd as [Hd _].
+  destruct Hes as [-> | [-> | ->]]; cbn [app opt_sign]; try reflexivity.
+  rewrite (digit_not_sign d Hd). reflexivity.
+Qed.
+
+Lemma opt_sign_inv s es ed : opt_sign s = (es, ed) -> s = es ++ ed /\ sign_str es.
+Proof.
+  destruct s as [|c t]; cbn [opt_sign].
+  - intro H; injection H as <- <-. split; [reflexivity|left; reflexivity].
+  - destruct (is_sign c) eqn:E; intro H; injection H as <- <-.
+    + split; [reflexivity|]. unfold is_sign in E. apply orb_true_iff in E as [E|E]; apply Z.eqb_eq in E; subst;
+        [right; left|right; right]; reflexivity.
+    + split; [reflexivity|left; reflexivity].
+Qed.
+
+Lemma scan_exp_shape lo up c es ed tail :
+  (c = lo \/ c = up) -> sign_str es -> ed <> [] -> forallb is_digit ed = true ->
+  scan_exp lo up (c :: es ++ ed ++ tail) = c :: es ++ ed ++ fst (span is_digit tail).
+Proof.
+  intros Hc Hes Hne Hd. unfold scan_exp.
+  replace ((c =? lo) || (c =? up)) with true
+    by (symmetry; apply orb_true_iff; destruct Hc as [-> | ->]; [left|right]; apply Z.eqb_refl).
+  rewrite (opt_sign_shape es ed tail Hes Hne Hd).
+  rewrite (span_prefix is_digit ed tail Hd).
+  destruct ed as [|d ed']; [congruence|]. cbn [app is_nil]. reflexivity.
+Qed.
+
+(* the text scan_exp consumes is a prefix of its input and is empty or an exponent *)
+Lemma scan_exp_spec lo up r :
+  (exists r', r = scan_exp lo up r ++ r') /\ (scan_exp lo up r = [] \/ exponent lo up (scan_exp lo up r)).
+Proof.
+  unfold scan_exp. destruct r as [|c r4]; [split; [exists []; reflexivity|left; reflexivity]|].
+  destruct ((c =? lo) || (c =? up)) eqn:Ec; [|split; [eexists; reflexivity|left; reflexivity]].
+  destruct (opt_sign r4) as [es r5] eqn:Es. destruct (span is_digit r5) as [ed r6] eqn:Ed.
+  destruct (opt_sign_inv _ _ _ Es) as [-> Hes]. destruct (span_eq _ _ _ _ Ed) as [-> [Hd _]].
+  destruct ed as [|d ed']; cbn [is_nil]; [split; [eexists; reflexivity|left; reflexivity]|].
+  split.
+  - exists r6. cbn [app]. rewrite <- !app_assoc. reflexivity.
+  - right. exists c, es, (d :: ed'). split; [reflexivity|]. split.
+    + apply orb_true_iff in Ec as [E|E]; apply Z.eqb_eq in E; auto.
+    + split; [exact Hes|]. split; [discriminate|exact Hd].
+Qed.
+
+Lemma scan_exp_blank lo up w :
+  stops (fun c => (c =? lo) || (c =? up)) w -> scan_exp lo up w = [].
+Proof. destruct w as [|c t]; [reflexivity|]. cbn [stops scan_exp]. intros ->. reflexivity. Qed.
+
+(* ------------------------------------------------------------------ *)
+(* the scanner on a fully lexed number followed by a blank             *)
+(* ------------------------------------------------------------------ *)
+
+Lemma span_stops_nil p w : stops p w -> span p w = ([], w).
+Proof. intro H. exact (span_stop p [] w eq_refl H). Qed.
+
+(* what may follow the number: nothing, or text starting with an ASCII blank *)
+Definition blank_led (w : bytes) : Prop := match w with c :: _ => ascii_space c = true | [] => True end.
+
+Lemma blank_led_stops w (p : Z -> bool) :
+  (forall c, ascii_space c = true -> p c = false) -> blank_led w -> stops p w.
+Proof. intros H Hw. destruct w as [|c t]; [exact I|]. cbn [stops blank_led] in *. auto. Qed.
+
+Lemma blank_not_digit c : ascii_space c = true -> is_digit c = false.
+Proof. unfold ascii_space, is_digit. intro H. lia. Qed.
+Lemma blank_not_hex_digit c : ascii_space c = true -> is_hex_digit c = false.
+Proof. unfold ascii_space, is_hex_digit, is_digit. intro H. lia. Qed.
+Lemma blank_not c (x : Z) : 33 <= x -> ascii_space c = true -> (c =? x) = false.
+Proof. unfold ascii_space. intros Hx H. lia. Qed.
+Lemma blank_not2 c (x y : Z) : 33 <= x -> 33 <= y -> ascii_space c = true -> (c =? x) || (c =? y) = false.
+Proof. unfold ascii_space. intros Hx Hy H. lia. Qed.
+
+Lemma opt_sign_app t w sg u : t <> [] -> opt_sign t = (sg, u) -> opt_sign (t ++ w) = (sg, u ++ w).
+Proof.
+  destruct t as [|c t']; [congruence|]. intros _. cbn [app opt_sign].
+  destruct (is_sign c); intro H; injection H as <- <-; reflexivity.
+Qed.
+
+Lemma zdrop2_app {A} (a b : A) (r w : list A) : zdrop 2 ((a :: b :: r) ++ w) = zdrop 2 (a :: b :: r) ++ w.
+Proof. reflexivity. Qed.
+Lemma ztake2_app {A} (a b : A) (r w : list A) : ztake 2 ((a :: b :: r) ++ w) = ztake 2 (a :: b :: r).
+Proof. reflexivity. Qed.
+
+Lemma hex_of_true_inv u : hex_of u = true ->
+  exists b c r, u = 48 :: b :: c :: r /\ (b = 120 \/ b = 88).
+Proof.
+  unfold hex_of. intro H. apply andb_true_iff in H as [Hl Hp].
+  destruct u as [|a [|b [|c r]]]; try (vm_compute in Hl; discriminate).
+  cbn [has_hex_prefix] in Hp. apply andb_true_iff in Hp as [Ha Hb]. apply Z.eqb_eq in Ha. subst a.
+  exists b, c, r. split; [reflexivity|]. apply orb_true_iff in Hb as [E|E]; apply Z.eqb_eq in E; auto.
+Qed.
+
+Lemma no_special_prefix h u' :
+  (is_digit h = true \/ h = 46) ->
+  (3 <=? zlen (h :: u')) && has_nan_prefix (h :: u') = false /\
+  (3 <=? zlen (h :: u')) && has_inf_prefix (h :: u') = false.
+Proof.
+  intro Hh.
+  assert (N : (h =? 110) || (h =? 78) = false /\ (h =? 105) || (h =? 73) = false).
+  { unfold is_digit in Hh. split; lia. }
+  destruct N as [N1 N2].
+  destruct u' as [|b [|c r]]; cbn [has_nan_prefix has_inf_prefix]; rewrite ?N1, ?N2, ?andb_false_r; split; reflexivity.
+Qed.
+
+Lemma scan_t_full start t w sg u d1 dot d2 r3 :
+  opt_sign t = (sg, u) ->
+  lex_mant (mant_digit (hex_of u)) (body_of u) = (d1, dot, d2, r3) ->
+  is_nil d1 && is_nil d2 = false ->
+  (r3 = [] \/
+   (exists c es ed, r3 = c :: es ++ ed /\ (lower c =? (if hex_of u then 112 else 101)) = true /\
+        opt_sign (es ++ ed) = (es, ed) /\ ed <> [] /\ forallb is_digit ed = true)) ->
+  blank_led w ->
+  scan_t start (t ++ w) = PSNum start t (hex_of u && is_nil r3).
+Proof.
+  intros Hos Hl Hnil Hr3 Hw.
+  destruct (opt_sign_inv _ _ _ Hos) as [Et Hsg].
+  pose proof (lex_mant_spec _ _ _ _ _ _ Hl) as [Eb [Hd1 [Hd2 [Hdot [Hst Hnodot]]]]].
+  (* the exponent part the scanner reads from r3 ++ w is r3 *)
+  assert (Hexp : scan_exp (if hex_of u then 112 else 101) (if hex_of u then 80 else 69) (r3 ++ w) = r3).
+  { destruct Hr3 as [-> | [c [es [ed [-> [Hc [Hose [Hne Hed]]]]]]]].
+    - cbn [app]. apply scan_exp_blank. apply (blank_led_stops w); [|exact Hw].
+      intros c Hc. destruct (hex_of u); apply blank_not2; try lia; exact Hc.
+    - destruct (opt_sign_inv _ _ _ Hose) as [_ Hes].
+      cbn [app]. rewrite <- app_assoc. rewrite scan_exp_shape; try assumption.
+      + rewrite (span_stops_nil is_digit w) by (apply (blank_led_stops w); [apply blank_not_digit|exact Hw]).
+        cbn [fst]. rewrite app_nil_r. reflexivity.
+      + destruct (hex_of u); [rewrite lower_p in Hc|rewrite lower_e in Hc];
+          apply orb_true_iff in Hc as [E|E]; apply Z.eqb_eq in E; auto. }
+  unfold scan_t.
+  destruct (hex_of u) eqn:Hhex.
+  - (* hexadecimal *)
+    destruct (hex_of_true_inv u Hhex) as [b [c [r [Eu Hb]]]].
+    assert (Ht : t <> []) by (rewrite Et, Eu; destruct sg; discriminate).
+    rewrite (opt_sign_app t w sg u Ht Hos).
+    rewrite Eu. cbn [app].
+    destruct (no_special_prefix 48 (b :: c :: r ++ w) (or_introl eq_refl)) as [N1 N2].
+    rewrite N1, N2.
+    replace (hex_of (48 :: b :: c :: r ++ w)) with true
+      by (symmetry; unfold hex_of; rewrite zlen_ge3; cbn [andb has_hex_prefix];
+          destruct Hb as [-> | ->]; reflexivity).
+    change (zdrop 2 (48 :: b :: c :: r ++ w)) with ((c :: r) ++ w).
+    change (ztake 2 (48 :: b :: c :: r ++ w)) with [48; b].
+    unfold body_of in Hl, Eb. rewrite Hhex, Eu in Hl, Eb. change (zdrop 2 (48 :: b :: c :: r)) with (c :: r) in Hl, Eb.
+    rewrite (lex_mant_ext _ _ _ mant_digit_hex) in Hl.
+    unfold scan_hex'.
+    rewrite (lex_mant_app is_hex_digit (c :: r) w d1 dot d2 r3 eq_refl Hl).
+    + rewrite Hnil, Hexp. cbn [andb]. f_equal.
+      rewrite Et, Eu. change (48 :: b :: c :: r) with ([48; b] ++ (c :: r)). rewrite Eb. reflexivity.
+    + intros _. split; apply (blank_led_stops w); try exact Hw; [apply blank_not_hex_digit|intros x; apply blank_not; lia].
+  - (* decimal *)
+    unfold body_of in Hl, Eb. rewrite Hhex in Hl, Eb.
+    rewrite (lex_mant_ext _ _ _ mant_digit_dec) in Hl.
+    assert (Hhead : exists h u', u = h :: u' /\ (is_digit h = true \/ h = 46)).
+    { rewrite Eb. destruct d1 as [|h d1'].
+      - destruct d2 as [|h2 d2']; [discriminate|].
+        destruct Hdot as [-> | ->]; [|destruct (Hnodot eq_refl) as [H _]; discriminate].
+        exists 46, ((h2 :: d2') ++ r3). split; [reflexivity|right; reflexivity].
+      - exists h, (d1' ++ dot ++ d2 ++ r3). split; [reflexivity|left].
+        cbn [forallb] in Hd1. apply andb_true_iff in Hd1 as [H _]. rewrite mant_digit_dec in H. exact H. }
+    destruct Hhead as [h [u' [Eu Hh]]].
+    assert (Ht : t <> []) by (rewrite Et, Eu; destruct sg; discriminate).
+    rewrite (opt_sign_app t w sg u Ht Hos).
+    assert (Hhexw : hex_of (u ++ w) = false).
+    { unfold hex_of in *. destruct u as [|a [|b [|c r]]].
+      - discriminate.
+      - destruct w as [|x w']; [reflexivity|]. cbn [app has_hex_prefix blank_led] in *.
+        rewrite (blank_not2 x 120 88) by (try lia; exact Hw). rewrite !andb_false_r. reflexivity.
+      - cbn [app]. destruct (has_hex_prefix (a :: b :: w)) eqn:E; [|apply andb_false_r].
+        exfalso. assert (E' : has_hex_prefix [a; b] = true) by exact E. clear E.
+        cbn [has_hex_prefix] in E'. apply andb_true_iff in E' as [Ea Eb'].
+        apply Z.eqb_eq in Ea. subst a.
+        assert (Hlex : lex_mant is_digit [48; b] = ([48], [], [], [b])).
+        { apply orb_true_iff in Eb' as [E|E]; apply Z.eqb_eq in E; subst b; reflexivity. }
+        rewrite Hlex in Hl. injection Hl as <- <- <- <-.
+        destruct Hr3 as [H | [c [es [ed [H [Hc _]]]]]]; [discriminate|].
+        injection H as <- _. rewrite lower_e in Hc.
+        apply orb_true_iff in Eb' as [E|E]; apply Z.eqb_eq in E; subst b; discriminate.
+      - rewrite zlen_ge3 in Hhex. cbn [andb] in Hhex. cbn [app]. rewrite zlen_ge3. exact Hhex. }
+    rewrite Hhexw. rewrite Eu. cbn [app].
+    destruct (no_special_prefix h (u' ++ w) Hh) as [N1 N2]. rewrite N1, N2.
+    change (h :: u' ++ w) with ((h :: u') ++ w). rewrite <- Eu.
+    unfold scan_dec.
+    rewrite (lex_mant_app is_digit u w d1 dot d2 r3 eq_refl Hl).
+    + rewrite Hnil, Hexp. cbn [andb]. f_equal. rewrite Et, Eb. reflexivity.
+    + intros _. split; apply (blank_led_stops w); try exact Hw; [apply blank_not_digit|intros x; apply blank_not; lia].
+Qed.
